@@ -187,6 +187,7 @@ class SimCluster:
         self.txns = {}
         self.next_pid = 1000
         self.metadata_hook = None
+        self.metadata_shuffle = None   # random.Random: order of partitions inside Metadata replies
         self.stale_metadata = {}       # node -> {(topic,partition): leader} view override
         self.on_request = None         # callback(info) after decode (for schedulers)
         from .groupcoord import GroupCoordinator
@@ -386,6 +387,8 @@ class SimCluster:
                 parts.append({"error_code": 0 if ld >= 0 else LEADER_NOT_AVAILABLE, "partition": p,
                               "leader": ld, "replicas": [ld] if ld >= 0 else [], "isr": [ld] if ld >= 0 else [],
                               "offline_replicas": []})
+            if self.metadata_shuffle is not None:
+                self.metadata_shuffle.shuffle(parts)     # brokers list partitions in no particular order
             topics.append({"error_code": 0, "topic": t, "is_internal": False, "partitions": parts})
         brokers = [{"node_id": i, "host": b["host"], "port": b["port"], "rack": None}
                    for i, b in self.brokers.items()]
